@@ -41,6 +41,10 @@ impl Str {
     #[verifier::external_body]
     pub fn is_empty(&self) -> (r: bool) ensures r == (self.bytes().len() == 0) { unimplemented!() }
 
+    /// str::as_ptr: the address of the first byte — says nothing about the content or the length
+    #[verifier::external_body]
+    pub fn as_ptr(&self) -> (r: *const u8) { unimplemented!() }
+
     /// <str as AsRef<[u8]>>::as_ref
     #[verifier::external_body]
     pub fn as_ref(&self) -> (r: &[u8])
@@ -197,6 +201,13 @@ impl PartialEq for Str {
 }
 /// anything `AsRef<str>` (the `T` of `impl<T: AsRef<str>> PartialEq<T> for ByteString`)
 pub trait AsRefStr { spec fn spec_str(&self) -> Seq<u8>; fn as_ref(&self) -> (r: &Str) ensures r.bytes() == self.spec_str(); }
+
+/// core::ptr::eq: address equality (either answer is possible for two strs, whatever their bytes)
+pub mod ptr {
+    use vstd::prelude::*;
+    #[verifier::external_body]
+    pub fn eq<T: ?Sized>(a: *const T, b: *const T) -> (r: bool) { unimplemented!() }
+}
 
 /// core::fmt stand-ins.  A Formatter is modelled by the bytes written so far (`out`) and its options (`opts`: width,
 /// fill, alignment, precision, flags — uninterpreted).  `str_display(b, o)` / `str_debug(b, o)` are what
@@ -509,12 +520,18 @@ impl hash::Hash for ByteString {
 }
 
 
-impl ByteString {
-//@extract file=bytestring/src/lib.rs item="impl PartialEq<str> for ByteString / fn eq" ret=r props=C20 name=lib::eq_str sig_replace="&str=>&Str;;fn eq(=>fn eq_str("
+impl vstd::std_specs::cmp::PartialEqSpecImpl<Str> for ByteString {
+    open spec fn obeys_eq_spec() -> bool { true }
+    open spec fn eq_spec(&self, other: &Str) -> bool { self@ == other.bytes() }   // [C20] compares as the equivalent str does
+}
+impl PartialEq<Str> for ByteString {
+//@extract file=bytestring/src/lib.rs item="impl PartialEq<str> for ByteString / fn eq" ret=r props=C20 name=lib::eq_str sig_replace="&str=>&Str"
 //@spec
     ensures r == (self@ == other.bytes()),   // [C20] compares as the equivalent str does
 //@end
-//@extract file=bytestring/src/lib.rs item="impl<T: AsRef<str>> PartialEq<T> for ByteString / fn eq" ret=r props=C20 name=lib::eq_as_ref sig_replace="fn eq(&self, other: &T)=>fn eq_as_ref<T: AsRefStr>(&self, other: &T)"
+}
+impl ByteString {
+//@extract file=bytestring/src/lib.rs item="impl<T: AsRef<str>> PartialEq<T> for ByteString / fn eq" ret=r props=C20 name=lib::eq_as_ref sig_replace="fn eq(&self, other: &T)=>fn eq_as_ref<T: AsRefStr>(&self, other: &T)" str_types
 //@spec
     ensures r == (self@ == other.spec_str()),   // [C20]
 //@end
